@@ -101,6 +101,25 @@ func writeTree(root string, files map[string]string) {
 	}
 }
 
+// writeArtefacts writes files into an existing tree without touching anything else.
+func writeArtefacts(root string, files map[string]string) {
+	for p, c := range files {
+		full := filepath.Join(root, filepath.FromSlash(p))
+		if strings.HasSuffix(p, "/") {
+			os.MkdirAll(full, 0o755)
+			continue
+		}
+		os.MkdirAll(filepath.Dir(full), 0o755)
+		if strings.HasPrefix(c, symlinkPrefix) {
+			os.Symlink(strings.TrimPrefix(c, symlinkPrefix), full)
+			continue
+		}
+		if err := os.WriteFile(full, []byte(c), 0o644); err != nil {
+			panic(err)
+		}
+	}
+}
+
 func isArtefact(p string) bool {
 	return strings.HasPrefix(p, "gen/") || strings.HasPrefix(p, "out/") || strings.HasPrefix(p, ".dawn/")
 }
@@ -301,6 +320,7 @@ type buildResult struct {
 var controlled bool
 
 type ctlOpts struct {
+	noTree   bool // do not read the tree back (the caller only looks at events)
 	muted    bool // Load on the default schedule; choices start at Run
 	prefix   []int
 	onEffect func(idx int, desc string)
@@ -320,10 +340,15 @@ func build(root string, v Vars, o buildOpts) *buildResult {
 	return buildCtl(root, v, o, ctlOpts{})
 }
 
+// skipTreeRead is set for the duration of one controlled build whose caller does not need the tree.
+var skipTreeRead bool
+
 func buildCtl(root string, v Vars, o buildOpts, c ctlOpts) *buildResult {
 	if !controlled {
 		return buildRaw(root, v, o)
 	}
+	skipTreeRead = c.noTree
+	defer func() { skipTreeRead = false }()
 	var res *buildResult
 	vos.ResetTemp()
 	sr := vsched.Execute(c.prefix, vsched.Options{NumCPU: 2, OnEffect: c.onEffect, Horizon: 50000, Muted: c.muted}, func() {
@@ -387,7 +412,9 @@ func buildRaw(root string, v Vars, o buildOpts) *buildResult {
 		res.StepAt = be.stepAt
 		res.Emits = append([]string{}, be.emits...)
 		be.mu.Unlock()
-		res.After = readTree(root)
+		if !skipTreeRead {
+			res.After = readTree(root)
+		}
 		res.Executed = map[string]bool{}
 		for _, s := range res.Steps {
 			for _, t := range []string{tGen, tMid, tTop, tLeaf, tOther, tColon} {
